@@ -25,6 +25,7 @@ import (
 	"github.com/plgd-dev/go-coap/v3/message"
 	"github.com/plgd-dev/go-coap/v3/message/pool"
 	coapNet "github.com/plgd-dev/go-coap/v3/net"
+	"github.com/plgd-dev/go-coap/v3/net/responsewriter"
 	"github.com/plgd-dev/go-coap/v3/options"
 	"github.com/plgd-dev/go-coap/v3/udp"
 	udpClient "github.com/plgd-dev/go-coap/v3/udp/client"
@@ -73,7 +74,14 @@ func execOnce(sc Scenario) *evid.Failure {
 		return nil // no loopback UDP in this environment: nothing to decide
 	}
 	defer l.Close()
+	var hmu sync.Mutex
+	handlerCalls := 0
 	s := udp.NewServer(
+		options.WithHandlerFunc(udpClient.HandlerFunc(func(_ *responsewriter.ResponseWriter[*udpClient.Conn], _ *pool.Message) {
+			hmu.Lock()
+			handlerCalls++
+			hmu.Unlock()
+		})),
 		options.WithErrors(func(error) {}),
 		options.WithMessagePool(pool.New(32, 2048)),
 		options.WithGetToken(func() (message.Token, error) { return message.Token{0xD5, 0x01}, nil }),
@@ -89,13 +97,20 @@ func execOnce(sc Scenario) *evid.Failure {
 	}()
 	srvUDP, _ := net.ResolveUDPAddr("udp4", l.LocalAddr().String())
 	time.Sleep(20 * time.Millisecond)
+	var f *evid.Failure
 	switch sc.Mode {
 	case "dup":
-		return execDup(sc, s, srvUDP)
+		f = execDup(sc, s, srvUDP)
 	case "blocks":
-		return execBlocks(sc, s, srvUDP)
+		f = execBlocks(sc, s, srvUDP)
 	}
-	return nil
+	hmu.Lock()
+	defer hmu.Unlock()
+	if f == nil && handlerCalls > 0 {
+		// a discovery response belongs to the receiver of its token and to nobody else
+		return evid.Failf("discovery/response-also-dispatched-to-the-handler", sc, "the server's request handler was invoked %d times although the peers only ever sent responses to discovery requests, each of which was given to its receiver", handlerCalls)
+	}
+	return f
 }
 
 type seen struct {
@@ -334,5 +349,5 @@ func Engine(r *evid.Run, mode string, quick, thorough int) evid.Engine {
 	})
 }
 
-const RuleDup = "discovery: the loopback udp/server's Discover with a token source that always hands out one token, 1-3 responders on sockets of their own (real time; a failure counts only if it reproduces three times in a row): a second call made while the first runs is refused and sees nothing, the first still receives every responder's answer with that responder's connection, and a third call made after both returned is served normally"
+const RuleDup = "discovery: the loopback udp/server's Discover with a token source that always hands out one token, 1-3 responders on sockets of their own (real time; a failure counts only if it reproduces three times in a row): a second call made while the first runs is refused and sees nothing, the first still receives every responder's answer with that responder's connection, and a third call made after both returned is served normally; the server's own request handler is never invoked for those responses"
 const RuleBlocks = "discovery: the loopback udp/server's Discover against a responder that answers with bodies of 2-4 blocks of 1024 bytes; the first poll is abandoned (the responder goes silent after K blocks, the call ends at its deadline, nothing is delivered), the second poll takes the same token again 0-500 ms later and is served completely with another body: what is delivered is exactly that body, once (real time; a failure counts only if it reproduces three times in a row)"
